@@ -60,7 +60,9 @@ def _store_records(ctx, d, rng, k, rid0):
     nt = int(rng.randint(2, 5))
     nc = int(rng.randint(3, 8))
     nloc = int(rng.randint(2, nc + 1))
-    ds = D.random_dense(rng, ns=ns, nt=nt, nc=nc, nsw=3)
+    # templates that own no spike (at the first / a middle / the last position) in half of the stores
+    empty = [[], [0], [], [nt - 1], [], [nt // 2]][k % 6] if nt >= 3 else []
+    ds = D.random_dense(rng, ns=ns, nt=nt, nc=nc, nsw=3, empty_templates=empty)
     with_rows = k % 2 == 1
     rows = np.sort(rng.choice(ns, size=int(rng.randint(2, ns + 1)), replace=False)) if with_rows else None
     nrows = len(rows) if with_rows else ns
